@@ -67,13 +67,13 @@ def replay_native(inst, obligation, model_json):
     return dict(outcome='not-concretizable', detail='no native_env')
   old = None
   try:
-    if hasattr(inst, 'old'):
+    if getattr(inst, 'old', None) is not None:
       old = C.call_clause_native(inst.old, env)
   except Exception as e:  # pylint: disable=broad-except
     return dict(outcome='not-concretizable', detail='old(): ' + repr(e))
   env['old'] = old
   try:
-    if hasattr(inst, 'requires') and not C.call_clause_native(inst.requires, env):
+    if getattr(inst, 'requires', None) is not None and not C.call_clause_native(inst.requires, env):
       return dict(outcome='model-violates-precondition', detail='')
   except Exception as e:  # pylint: disable=broad-except
     return dict(outcome='not-concretizable', detail='requires(): ' + repr(e))
